@@ -186,4 +186,60 @@ theorem emptied_is_root_only (ops : List (Op w V)) (hops : ∀ op ∈ ops, op.Ca
 theorem emptied_arena_bounded (ops : List (Op w V)) :
     (run ops (PMap.empty : PMap w V)).alloc ≤ peak (PMap.empty : PMap w V) ops := storage_bounded ops
 
+
+/-- a canonical non-root subtree holds at most `2·entries − 1` nodes … -/
+theorem canon_size_le {t : Tree w V} (h : Tree.Canon false t) (hn : t.isNil = false) :
+    t.size + 1 ≤ 2 * t.card := by
+  induction t with
+  | nil => cases hn
+  | node s p v l r ihl ihr =>
+    have hl : l.isNil = true ∨ l.size + 1 ≤ 2 * l.card := by
+      cases hh : l.isNil with
+      | true => exact .inl rfl
+      | false => exact .inr (ihl h.2.1 hh)
+    have hr : r.isNil = true ∨ r.size + 1 ≤ 2 * r.card := by
+      cases hh : r.isNil with
+      | true => exact .inl rfl
+      | false => exact .inr (ihr h.2.2 hh)
+    have zl : l.isNil = true → l.size = 0 ∧ l.card = 0 := by
+      intro e; cases l <;> simp_all [Tree.isNil, Tree.size]
+    have zr : r.isNil = true → r.size = 0 ∧ r.card = 0 := by
+      intro e; cases r <;> simp_all [Tree.isNil, Tree.size]
+    simp only [Tree.size, card_node]
+    rcases h.1 with h1 | h1 | h1
+    · cases h1
+    · simp only [h1, ite_true]
+      rcases hl with e | e <;> rcases hr with e' | e'
+      · have := zl e; have := zr e'; omega
+      · have := zl e; omega
+      · have := zr e'; omega
+      · omega
+    · rcases hl with e | e
+      · rw [e] at h1; cases h1.1
+      · rcases hr with e' | e'
+        · rw [e'] at h1; cases h1.2
+        · split <;> omega
+
+/-- … so a map modified only by insertion, `remove`, `retain` and `clear` never holds more than
+`2·len() + 1` nodes: removals give back every node they make superfluous -/
+theorem canonical_nodes_le (ops : List (Op w V)) (hops : ∀ op ∈ ops, op.Canonical) :
+    (run ops (PMap.empty : PMap w V)).root.size ≤ 2 * (run ops (PMap.empty : PMap w V)).len + 1 := by
+  have hc := run_canonical ops hops
+  have hi := run_inv (w := w) (V := V) ops
+  obtain ⟨p, v, l, r, hr, _⟩ := hi.tree.root
+  unfold PMap.Canonical at hc
+  unfold PMap.len
+  rw [hi.count, hr]
+  rw [hr] at hc
+  have hl : l.size ≤ 2 * l.card := by
+    cases hh : l.isNil with
+    | true => cases l <;> simp_all [Tree.isNil, Tree.size]
+    | false => have := canon_size_le hc.2.1 hh; omega
+  have hr' : r.size ≤ 2 * r.card := by
+    cases hh : r.isNil with
+    | true => cases r <;> simp_all [Tree.isNil, Tree.size]
+    | false => have := canon_size_le hc.2.2 hh; omega
+  simp only [Tree.size, card_node]
+  split <;> omega
+
 end PT.C16
